@@ -619,6 +619,16 @@ pub fn child_digest() -> i32 {
             h.str(&res_str(r));
         }
     }
+    // metadata with explicit creation times (0 included: it is a time like any other, not a
+    // request for the current time)
+    for tm in [0u64, 1, 86_400 * 365] {
+        for fast in [true, false] {
+            let cfg = Cfg { meta: Some(MMeta { title: Some("clock".into()), time: Some(tm), lang: None }), ..Cfg::basic(VCodec::H264, None, fast) };
+            let (d, _) = video_frame(VCodec::H264, true, true, 1, 5);
+            let ex = crate::run::run(&cfg, &[Op::WV { pts: T(0.0), data: Bytes::new(d), key: true }, Op::FinishInPlace]);
+            h.bytes(&ex.bytes);
+        }
+    }
     for codec in oracle::frames::VCODECS {
         let fc = crate::frag::FCfg { codec, via_builder: true, timescale: 90000, fragment_ms: 2000, start_dts: 0, width: 640, height: 480, ps_len: 10 };
         if let Ok(mut m) = crate::frag::make(&fc) {
